@@ -50,6 +50,8 @@ impl Prop for C10 {
                 }
             }
         }
+        // an authentic file with one byte appended, and an interruption (or a hard error) on each read call in turn: never a success
+        for op in ["key_decrypt", "pass_decrypt", "dec"] { for kind in ["ei", "eo"] { v.push(case(&[("op", op.into()), ("plen", "70000".into()), ("cs", "2".into()), ("lens", "2,1".into()), ("ext", "1".into()), ("side", "read".into()), ("kind", kind.into()), ("k", "all".into()), ("seed", rng.next().to_string())])); } }
         for cmd in ["encrypt", "decrypt", "pass-encrypt", "pass-decrypt", "key-generate"] { for plen in [100usize, 70000] { if cmd == "key-generate" && plen > 100 { continue; }
             v.push(case(&[("op", "cli-devfull".into()), ("cmd", cmd.into()), ("plen", plen.to_string()), ("seed", rng.next().to_string())]));
             // the same failure through the other wiring: no -o, standard output on the full device / on a pipe whose reader goes away after 10 bytes
@@ -78,8 +80,8 @@ impl Prop for C10 {
                 "pass-encrypt" => sv(&["password", "encrypt", "in.bin", "-o", "/dev/full", "--env-pass"]), "pass-decrypt" => sv(&["password", "decrypt", "in.bin", "-o", "/dev/full", "--env-pass"]), _ => sv(&["key", "generate", "-o", "/dev/full", "--env-pass"]) };
             let sink = get(c, "sink");
             let args: Vec<String> = if sink.is_empty() { args } else { let mut a = vec![]; let mut skip = false; for x in args { if skip { skip = false; continue; } if x == "-o" { skip = true; continue; } a.push(x); } a };
-            let obs = match sink { "stdout-devfull" => run_kestrel_wired(&world, &args, &Wiring { stdout: StdoutMode::DevFull, links: vec![] }),
-                "stdout-closed" => run_kestrel_wired(&world, &args, &Wiring { stdout: StdoutMode::CloseAfter(10), links: vec![] }), _ => run_kestrel(&world, &args) };
+            let obs = match sink { "stdout-devfull" => run_kestrel_wired(&world, &args, &Wiring { stdout: StdoutMode::DevFull, links: vec![], fifos: vec![] }),
+                "stdout-closed" => run_kestrel_wired(&world, &args, &Wiring { stdout: StdoutMode::CloseAfter(10), links: vec![], fifos: vec![] }), _ => run_kestrel(&world, &args) };
             o.impl_obs = format!("exit={:?} signal={} stderr={:?}", obs.exit, obs.signal, obs.stderr.lines().last().unwrap_or("").chars().take(80).collect::<String>()); o.model_obs = "a failing write is an error".into();
             o.tags.push(format!("cli {} {} -> exit {:?}", if sink.is_empty() { "-o /dev/full" } else { sink }, cmd, obs.exit)); o.nontrivial = Some(format!("devfull/{}/{}/{}", cmd, plen, sink));
             // a reader that went away may also end the tool by SIGPIPE; what must not happen is a report of success
@@ -99,7 +101,8 @@ impl Prop for C10 {
         let keys = { let mut r = Rng::new(77); (r.bytes(32), r.bytes(32), r.bytes(32), r.bytes(32), r.bytes(32)) };
         let (spk, rpk2, epk) = (crate::props::c01::pub_of(&keys.0), crate::props::c01::pub_of(&keys.1), crate::props::c01::pub_of(&keys.2));
         let plain = crate::gen::payload(5, plen);
-        let input: Vec<u8> = match op { "enc" => a.as_ref().unwrap().plain.clone(), "dec" => a.as_ref().unwrap().file.clone(), "key_decrypt" => kf.clone(), "pass_decrypt" => pf.clone(), _ => plain.clone() };
+        let ext = get(c, "ext") == "1";
+        let input: Vec<u8> = { let mut i: Vec<u8> = match op { "enc" => a.as_ref().unwrap().plain.clone(), "dec" => a.as_ref().unwrap().file.clone(), "key_decrypt" => kf.clone(), "pass_decrypt" => pf.clone(), _ => plain.clone() }; if ext { i.push(0x5a); } i };
         let run_impl = |sc: &Scripts| -> StreamResp { match op {
             "enc" => { let a = a.as_ref().unwrap(); imp::enc_chunks(&a.key, &a.aad, cs as u32, &input, sc) }
             "dec" => { let a = a.as_ref().unwrap(); imp::dec_chunks(&a.key, &a.aad, cs as u32, &input, sc) }
@@ -120,6 +123,28 @@ impl Prop for C10 {
         let base_rs: Vec<RdEv> = if op == "enc" { reads_of(&lens) } else if hook { match sched { 0 => vec![], 1 => (0..input.len() + 2).map(|_| RdEv::Data(1)).collect(), 2 => (0..input.len()).map(|i| RdEv::Data(1 + i % 5)).collect(), _ => (0..input.len()).map(|_| RdEv::Data(rng.range(1, 40))).collect() } }
             else if op.ends_with("decrypt") { (0..40).map(|i| RdEv::Data(if i % 2 == 0 { 3 } else { 70000 })).collect() } else { vec![] };
         let base_ws: Vec<WrEv> = match sched { 0 => vec![], 1 => (0..400).map(|_| WrEv::Accept(1)).collect(), 2 => (0..200).map(|i| WrEv::Accept(1 + i % 7)).collect(), _ => (0..200).map(|_| WrEv::Accept(rng.range(1, 50))).collect() };
+        if ext {
+            // an authentic file with one byte appended: the fault-free run must report the trailing data, and no single read fault — an interruption
+            // least of all — may turn that into a success
+            let free = run_impl(&Scripts { rs: &base_rs, ws: &[], fs: &[] });
+            o.tags.push(format!("op={} extended", op)); o.nontrivial = Some(format!("ext/{}/{}", op, get(c, "kind")));
+            if free.res != "unexpected" { o.impl_obs = free.res.clone(); o.oracle_fail = Some(("trailing-data-reported".into(), format!("{} on an authentic file with one byte appended returned {}", op, free.res))); return o; }
+            let (frd, _, _) = fault_of("read", get(c, "kind"));
+            let mut classes = std::collections::BTreeMap::new();
+            for k in 0..=free.reads {
+                let mut rs: Vec<RdEv> = base_rs.iter().take(k).cloned().collect(); while rs.len() < k { rs.push(RdEv::Data(70000)); }
+                rs.push(frd.clone().unwrap()); rs.extend(base_rs.iter().skip(k).cloned());
+                let sc = Scripts { rs: &rs, ws: &[], fs: &[] };
+                let r = run_impl(&sc); let mr = parse_stream(&m.ask(&model_line(&sc))); o.validated += 1;
+                *classes.entry(r.res.clone()).or_insert(0u32) += 1;
+                let label = format!("{} on an extended file, read {} at call {} of {}", op, get(c, "kind"), k, free.reads);
+                if r.res == "ok" { o.impl_obs = format!("{} -> ok", label); o.model_obs = mr.res.clone(); o.oracle_fail = Some(("success-only-at-end-of-stream".into(), format!("{}: reported success although a byte follows the final chunk (the read that should have found it was {})", label, if get(c, "kind") == "ei" { "interrupted" } else { "failed" }))); return o; }
+                if r.res == "crash" { o.oracle_fail = Some(("no-panic".into(), format!("{}: panicked", label))); return o; }
+                if r.res != imp::canon(&mr.res) && o.disagreement.is_none() { o.disagreement = Some(format!("{}: impl {} model {}", label, r.res, mr.res)); }
+            }
+            o.impl_obs = format!("{} read calls, fault at each: {:?}", free.reads + 1, classes); o.model_obs = "never ok".into();
+            return o;
+        }
         let free = run_impl(&Scripts { rs: &base_rs, ws: &base_ws, fs: &[] });
         if free.res != "ok" { o.impl_obs = format!("fault-free run: {}", free.res); o.oracle_fail = Some(("fault-free-run-succeeds".into(), format!("{} with a conforming source and sink returned {}", op, free.res))); return o; }
         let want = free.out.clone();
